@@ -279,7 +279,7 @@ class TLSTransportWrapper:
             data: Plaintext data to encrypt and send.
         """
         if self.tls_protocol.tls_conn:
-            self.tls_protocol.tls_conn.send(data)
+            self.tls_protocol.tls_conn.sendall(data)
             self.tls_protocol._flush_outgoing()
 
     def close(self) -> None:
